@@ -381,8 +381,10 @@ class GeneralSurrogate:
             if self.numElements == 2:
                 return np.squeeze(np.power(output[:,0],3))
             else:
-                d = np.power(output[:,:x.shape[1]*x.shape[1]], 3)
-                d = np.reshape(d, (d.shape[0], x.shape[1], x.shape[1]))
+                #Number of independent components (x may be a list, a single composition or a 2D array)
+                n = self.numElements - 1
+                d = np.power(output[:,:n*n], 3)
+                d = np.reshape(d, (d.shape[0], n, n))
                 return np.squeeze(d)
         else:
             return self.therm.getInterdiffusivity(x, T, phase=phase, *args, **kwargs)
@@ -406,7 +408,8 @@ class GeneralSurrogate:
         phase = _getMatrixPhase(self.phases, phase)
         if phase in self.diffusivityModels:
             output = self._getDiffusivity(x, T, phase)
-            d = np.power(output[:,x.shape[1]*x.shape[1]:],3)
+            n = self.numElements - 1
+            d = np.power(output[:,n*n:],3)
             return np.squeeze(d)
         else:
             return self.therm.getTracerDiffusivity(x, T, phase=phase, *args, **kwargs)
